@@ -175,7 +175,8 @@ fn drive<M: Monitor>(m: &M, a: &Args) -> i32 {
         // a fuzzer input: the choice tape of this property's generator
         let data = std::fs::read(path).expect("read tape");
         let mut rng = rvmon::gener::Rng::from_tape(&data);
-        let case = m.generate(&mut rng, a.tier, 0);
+        let index = rng.below(65536);
+        let case = m.generate(&mut rng, a.tier, index);
         return match campaign::replay(m, a.tier, serde_json::to_value(&case).unwrap_or(Value::Null)) {
             Ok(rep) => {
                 println!("tape: {} violation(s) {:?}", rep.violations.len(), rep.violation_counts);
